@@ -258,6 +258,9 @@ func (e *exec) compareContent(rs *rootmulti.Store, want []content, prop, oracle 
 }
 
 func execute(tr *Trace) (*core.Result, error) {
+	// rootmulti commits its substores in Go map order: make that order a function of the trace's seed
+	core.SetMapSeed(core.SplitMix64(tr.Seed ^ 0x73746f7265))
+	defer core.ClearMapSeed()
 	e := &exec{tr: tr, res: &core.Result{Stats: core.NewStats()}, commitEvents: map[int]int{}}
 	e.db = simdb.New()
 	e.db.Classify = simdb.RootmultiClassifier
